@@ -74,12 +74,20 @@ func c10Run(c *work.Ctx, pathOnly bool) {
 			names = append(names, calls[i].name)
 		}
 		sname := strings.Join(names, " || ")
+		if c.TimeUp() {
+			c.NotExhaustive(fmt.Sprintf("deadline reached at scenario %d of %d (%s); the scenarios before it were explored completely", si, len(scens), sname))
+			return
+		}
 		for _, variant := range []struct {
 			poolFresh bool
 			prologue  bool
 		}{{false, false}, {true, false}, {false, true}} {
 			poolFresh := variant.poolFresh
 			ex := &explore.Explorer{Bound: bound}
+			if len(sc.idx) > 2 {
+				// three goroutines: one preemption less (the cost grows with the cube of the execution length)
+				ex.Bound = bound - 1
+			}
 			if variant.prologue {
 				// a history of failed calls first (what they leave in the pools and caches is what the
 				// goroutines start from); one preemption fewer keeps the cost of this variant low
